@@ -83,4 +83,42 @@ def Disj (a b : Col) : Prop := a.max < b.min ∨ b.max < a.min
 *not* sorted): well-formed ranges inside the sheet, pairwise non-overlapping, in any order -/
 def Wf (l : List Col) : Prop := (∀ e ∈ l, 1 ≤ e.min ∧ e.min ≤ e.max) ∧ l.Pairwise Disj
 
+/-! ## the column setters (col.go flatCols, setColWidth, SetColOutlineLevel) -/
+
+/-- `inFlat` closure of `flatCols`: index of the single-column entry for column `i` -/
+def inFlat (i : Nat) (fc : List Col) : Option Nat := fc.findIdx? fun c => c.max == i && c.min == i
+
+/-- one iteration of the inner loop of `flatCols` for column `i` of the existing entry `column` -/
+def flatStep (rep : Attrs → Attrs → Attrs) (column : Col) (fc : List Col) (i : Nat) : List Col :=
+  match inFlat i fc with
+  | some idx => match fc[idx]? with
+    | some e => fc.set idx { e with a := rep e.a column.a }
+    | none => fc
+  | none => fc ++ [⟨i, i, column.a⟩]
+
+/-- the columns `Min … Max` of an entry -/
+def span (c : Col) : List Nat := List.range' c.min (c.max + 1 - c.min)
+
+/-- col.go `flatCols`: the new entry exploded into single columns, then every column of every existing
+entry either merged into its single (through the setter's `replacer`) or appended as a new single -/
+def flatCols (col : Col) (cols : List Col) (rep : Attrs → Attrs → Attrs) : List Col :=
+  cols.foldl (fun fc column => (span column).foldl (flatStep rep column) fc)
+    ((span col).map fun i => ⟨i, i, col.a⟩)
+
+/-- a column setter: with no `<cols>` yet the entry is appended as given, otherwise `flatCols` -/
+def setCols (cols : Option (List Col)) (col : Col) (rep : Attrs → Attrs → Attrs) : List Col :=
+  match cols with
+  | none => [col]
+  | some l => flatCols col l rep
+
+/-- `replacer` of `setColWidth`: keeps the new width/customWidth, takes the rest from the existing entry -/
+def widthRep (fc c : Attrs) : Attrs :=
+  { fc with bestFit := c.bestFit, collapsed := c.collapsed, hidden := c.hidden, outline := c.outline,
+            phonetic := c.phonetic, style := c.style }
+
+/-- `replacer` of `SetColOutlineLevel` -/
+def outlineRep (fc c : Attrs) : Attrs :=
+  { fc with bestFit := c.bestFit, collapsed := c.collapsed, customWidth := c.customWidth, hidden := c.hidden,
+            phonetic := c.phonetic, style := c.style, width := c.width }
+
 end XlModel.SaveCols
